@@ -144,7 +144,7 @@ pub fn family(name: &str) -> Family {
             probes: &[],
         },
         "dis" => {
-            let mut a: Vec<String> = vec!["disable A::y".into(), "disable H::hi".into(), "update".into(), "rederive".into(), "rt-msk".into()];
+            let mut a: Vec<String> = vec!["disable A::y".into(), "disable H::hi".into(), "update".into(), "rederive".into(), "rt-msk".into(), "add H::mid classic after lo".into()];
             a.extend(["A::y", "A::x", "H::hi", "*"].iter().map(|p| format!("rekey {p}")));
             a.extend(["A::y", "H::hi", "*"].iter().map(|p| format!("prune {p}")));
             a.push("keygen A::y && H::hi".into());
@@ -153,7 +153,7 @@ pub fn family(name: &str) -> Family {
                 name: "dis",
                 init: w_init(true),
                 alphabet: ops(&a.iter().map(String::as_str).collect::<Vec<_>>()),
-                enc_menu: vec!["A::x", "A::y", "H::hi", "H::lo", "A::x && H::hi", "A::y && H::lo", "A::x || A::y", "*"],
+                enc_menu: vec!["A::x", "A::y", "H::hi", "H::lo", "H::mid", "A::x && H::hi", "A::y && H::lo", "A::y && H::mid", "A::x || A::y", "*"],
                 tags: Tags { open: "C06.c", deny: "C06.e" },
                 rt_bound: 2,
                 max_usks: 3,
@@ -200,13 +200,13 @@ pub fn family(name: &str) -> Family {
             let mut a: Vec<String> = vec![];
             a.extend(["A::x", "A::y", "A::x && H::hi", "*"].iter().map(|p| format!("rekey {p}")));
             a.extend(["A::x", "A::y", "*"].iter().map(|p| format!("prune {p}")));
-            a.extend(["disable A::y", "disable H::hi", "del A::y", "del H::lo", "update"].iter().map(|s| s.to_string()));
+            a.extend(["disable A::y", "disable H::hi", "del A::y", "del H::lo", "del-dim A", "update"].iter().map(|s| s.to_string()));
             a.extend(refresh3[..4].iter().map(|s| s.to_string()));
             Family {
                 name: "recaps",
                 init: w_init(true),
                 alphabet: ops(&a.iter().map(String::as_str).collect::<Vec<_>>()),
-                enc_menu: vec!["A::x", "A::x || A::y", "A::x && H::hi || A::y && H::lo", "A::y", "H::hi", "*"],
+                enc_menu: vec!["A::x", "A::x || A::y", "A::x && H::hi || A::y && H::lo", "A::y", "H::hi", "A::x || A::y || H::lo || H::hi", "*"],
                 tags: Tags { open: "C18.o", deny: "C18.o" },
                 rt_bound: 0,
                 max_usks: 2,
@@ -224,6 +224,34 @@ pub fn family(name: &str) -> Family {
             f.tags = Tags { open: "C01.h", deny: "C02.h" };
             f
         }
+        "hyb" => Family {
+            // flavours across re-creation of attributes: the attribute created last (highest id) is
+            // hybridized and held by a key; deleting and re-creating it with another hint must
+            // leave every right with the flavour its attributes ask for (explored under the
+            // semantics of the listed id-reuse finding, which the model follows)
+            name: "hyb",
+            init: ops(&[
+                "add-dim H hierarchy",
+                "add H::lo classic",
+                "add H::hi classic after lo",
+                "add-dim A anarchy",
+                "add A::x classic",
+                "add A::y hybrid",
+                "update",
+                "keygen A::x && H::hi",
+                "keygen A::y",
+            ]),
+            alphabet: ops(&[
+                "del A::y", "add A::z classic", "add A::z hybrid", "add A::y classic", "update", "rekey A::x", "rekey *", "rt-msk",
+                "refresh 0 keep", "refresh 0 drop", "refresh 1 keep", "refresh 1 drop", "keygen A::z",
+            ]),
+            enc_menu: vec!["A::x", "A::y", "A::z", "H::hi", "A::y && H::lo", "A::z && H::lo", "*"],
+            tags: Tags { open: "C03.a", deny: "C03.a" },
+            rt_bound: 1,
+            max_usks: 3,
+            rt_encs: false,
+            probes: &[],
+        },
         "disrot" => {
             // rotation meets deactivation: the initial world already holds a re-keyed right whose
             // key kept the old secret, so that disable / delete + update + prune + refresh
@@ -234,10 +262,10 @@ pub fn family(name: &str) -> Family {
                 name: "disrot",
                 init,
                 alphabet: ops(&[
-                    "disable A::y", "disable H::hi", "del A::y", "update", "rekey A::y", "rekey *", "prune A::y", "prune *",
+                    "disable A::y", "disable H::hi", "del A::y", "add H::mid classic after lo", "update", "rekey A::y", "rekey *", "prune A::y", "prune *",
                     "refresh 0 keep", "refresh 0 drop", "refresh 1 keep", "refresh 1 drop", "keygen A::y",
                 ]),
-                enc_menu: vec!["A::x", "A::y", "H::hi", "A::y && H::lo", "A::x || A::y", "*"],
+                enc_menu: vec!["A::x", "A::y", "H::hi", "A::y && H::lo", "A::y && H::mid", "A::x || A::y", "*"],
                 tags: Tags { open: "C04.a", deny: "C04.b" },
                 rt_bound: 0,
                 max_usks: 3,
@@ -388,7 +416,7 @@ pub struct Outcome {
 pub fn run_transition(fam: &Family, hist: &[Op], op: &Op) -> Option<Outcome> {
     let mut w = build(fam, hist);
     // the explorer only expands prefixes whose failures were benign (see BENIGN)
-    w.failures.retain(|f| !BENIGN.iter().any(|b| f.clause.starts_with(b)));
+    w.failures.retain(|f| !BENIGN.iter().any(|b| f.clause.starts_with(b)) && classify(f).is_none());
     if !w.failures.is_empty() {
         // a prefix that was clean when first explored must stay clean
         return Some(Outcome { key: String::new(), failures: std::mem::take(&mut w.failures).into_iter().map(|mut f| { f.msg = format!("(while replaying the prefix) {}", f.msg); f }).collect(), ok: false, counts: w.counts.clone(), partial_chains: false });
@@ -540,7 +568,10 @@ pub fn explore(run: &mut Run, fam: &Family, max_depth: usize, cap_secs: f64, own
                     // leave the lock-step intact (serialisation equality, tracing relation,
                     // flavours, decaps outcomes) do not stop the exploration: their consequences
                     // for THIS property are still to be seen.
-                    let benign = out.failures.iter().all(|f| !owned.iter().any(|p| f.clause.starts_with(p)) && classify(f).is_none() && BENIGN.iter().any(|b| f.clause.starts_with(b)));
+                    let benign = out.failures.iter().all(|f| {
+                        let known = classify(f).is_some_and(|id| run.findings.is_open(id).is_some());
+                        known || (!owned.iter().any(|p| f.clause.starts_with(p)) && BENIGN.iter().any(|b| f.clause.starts_with(b)))
+                    });
                     if !benign {
                         continue;
                     }
@@ -592,18 +623,22 @@ fn handle_failures(run: &mut Run, fam: &Family, hist: &[Op], op: Option<&Op>, fa
         st.decoder_disagreements += 1;
     }
     // a listed finding taints the history whatever property is being checked
+    let mut known_here = false;
     if let Some(id) = fails.iter().find_map(classify) {
-        st.tainted += 1;
         let f = fails.iter().find(|f| classify(f) == Some(id)).unwrap();
         if run.findings.is_open(id).is_some() {
+            st.tainted += 1;
+            known_here = true;
             if owned.iter().any(|p| f.clause.starts_with(p)) {
-                run.report(Some(id), &f.clause, &format!("after [{}]: {}", ops.join("; "), f.msg), replay);
+                run.report(Some(id), &f.clause, &format!("after [{}]: {}", ops.join("; "), f.msg), replay.clone());
             }
-            return false;
         }
     }
     let mut reported = false;
     for f in fails {
+        if known_here && classify(f).is_some() {
+            continue;
+        }
         if owned.iter().any(|p| f.clause.starts_with(p)) {
             if !reported {
                 // confirm on fresh worlds before reporting; a defect may depend on the
@@ -641,7 +676,7 @@ pub fn stats_json(fam: &Family, st: &ExploreStats) -> serde_json::Value {
         "transitions": st.transitions,
         "max_depth_completed": st.depth_completed,
         "wall_cap_hit": st.capped,
-        "tainted_states": st.tainted,
+        "states_where_a_listed_finding_fired": st.tainted,
         "clause_failures_owned_by_other_properties": st.foreign,
         "distinct_transition_outcomes": st.outcomes,
         "states_with_partially_rotated_keys": st.partial_chain_states,
